@@ -23,7 +23,7 @@ ID = "C16"
 LEVEL = "exploration"
 DESIGN_REF = "DESIGN.md 4/C16"
 RULE = (
-    "case = (template, exponent e, operation): 20 type templates (primitive / sub-byte / nested variable-length elements to depth 3, "
+    "case = (template, exponent e, operation): 24 type templates (primitive / sub-byte / nested variable-length elements to depth 3, "
     "delimited with large extent, unions) with capacity or extent N = 2**e for every e in 1..63 (thorough: also 2**e-1 and 2**e+1), "
     "built through the constructors (a subset also read from DSDL text); operations: build, min, max, extent, fixed_length, "
     "is_aligned_at_byte of the type and of every field offset (min/max too), == and hash against an independently built twin, != against "
@@ -63,6 +63,11 @@ def templates():
         "farr-of-farr": lambda n: ["struct", [b, ["farr", ["farr", u3, n], n]]],
         "delimited-union": lambda n: ["delim", ["union", [["varr", u17, n], b]], 8 * (8 + 3 * n)],
         "utf8-bytes": lambda n: ["struct", [["varr", ["utf8"], n], ["varr", ["byte"], n], b]],
+        # long runs of unaligned variable-length fields: aggregation must stay pairwise (residue products bounded by divisor**2)
+        "twelve-subbyte-arrays": lambda n: ["struct", [["varr", u3, n]] * 12],
+        "twelve-mixed-arrays": lambda n: ["struct", [["varr", b, n], ["varr", u17, n], ["varr", u3, n], ["farr", b, 3]] * 3],
+        "sixteen-variant-union": lambda n: ["union", [["varr", u3, n], ["varr", b, n], ["varr", u17, n], u8] * 4],
+        "struct-of-struct-runs": lambda n: ["struct", [["struct", [["varr", u3, n]] * 6], b, ["struct", [["varr", b, n]] * 6], u3]],
     }
 
 
